@@ -406,7 +406,60 @@ def stale_precedence(fn) -> List[Tuple[ast.AST, str]]:
     return res
 
 
+# one symbol, one reason
+_TRUTHY_EXEMPT = {
+    ("decode_counts", "discard_lower"): "a threshold of 0 discards nothing, exactly like no threshold",
+}
+
+
+def truthy_optional(fn) -> List[Tuple[ast.AST, str]]:
+    """a parameter declared Optional[int|bool|float|Any] (or Any) with default None, asked for its truth value: the
+    values 0 / False / 0.0 are legitimate arguments and are treated as "not given" """
+    if not isinstance(fn, (ast.FunctionDef, ast.AsyncFunctionDef)):
+        return []
+    a = fn.args
+    pos = a.posonlyargs + a.args
+    pairs = list(zip(pos[len(pos) - len(a.defaults) :], a.defaults)) + [(k, d) for k, d in zip(a.kwonlyargs, a.kw_defaults) if d is not None]
+    opt = {}
+    for arg, d in pairs:
+        if not (isinstance(d, ast.Constant) and d.value is None) or arg.annotation is None:
+            continue
+        ann = norm(arg.annotation).replace(" ", "")
+        inner = ann[len("Optional[") : -1] if ann.startswith("Optional[") and ann.endswith("]") else (ann if ann in ("Any",) else None)
+        if inner is None and ann.endswith("|None"):
+            inner = ann[: -len("|None")]
+        if inner in ("int", "bool", "float", "Any", "Qtype", "Union[int,bool]", "Union[bool,int]"):
+            opt[arg.arg] = ann
+    if not opt:
+        return []
+
+    def uses(e):
+        if isinstance(e, ast.Name) and e.id in opt:
+            yield e
+        elif isinstance(e, ast.UnaryOp) and isinstance(e.op, ast.Not):
+            yield from uses(e.operand)
+        elif isinstance(e, ast.BoolOp):
+            for v in e.values:
+                yield from uses(v)
+
+    res, seen = [], set()
+    for n in ast.walk(fn):
+        tests = []
+        if isinstance(n, (ast.If, ast.While, ast.IfExp)):
+            tests.append(n.test)
+        elif isinstance(n, ast.BoolOp):
+            tests.extend(n.values[:-1])
+        for t in tests:
+            for u in uses(t):
+                if id(u) in seen or (fn.name, u.id) in _TRUTHY_EXEMPT:
+                    continue
+                seen.add(id(u))
+                res.append((u, f"`{norm(t)[:60]}` asks for the truth value of `{u.id}: {opt[u.id]} = None`: the arguments 0 / False / 0.0 are legitimate values and are treated as if the argument had been omitted (compare with `is None`)"))
+    return res
+
+
 RULES = (
+    ("TRUTHY-OPTIONAL", truthy_optional, "an optional value argument is compared with None, never asked for its truth value"),
     ("STALE-PRECEDENCE", stale_precedence, "the latest definition of a symbol takes precedence over its initial binding"),
     ("NAME-BINDERS", name_binders, "a collector of re-bound names knows every binding statement kind"),
     ("COUNT-INDEX", gates_index_by_count, "positions in the gate list are computed from its length, not from the no-op-free gate count"),
@@ -418,6 +471,10 @@ RULES = (
 )
 
 POSITIVE = {
+    "TRUTHY-OPTIONAL": """
+def search(self, oracle, element_to_search: Optional[Any] = None):
+    self.oracle = oraclize(oracle, element_to_search) if element_to_search else oracle
+""",
     "STALE-PRECEDENCE": """
 def compress(deff, arg_bits):
     d_exp = {}
@@ -477,6 +534,12 @@ def compile_thing(self, qc, expr, dest=None):
 }
 
 NEGATIVE = {
+    "TRUTHY-OPTIONAL": """
+def search(self, oracle, element_to_search: Optional[Any] = None, name: Optional[str] = None, discard_lower=None):
+    self.oracle = oraclize(oracle, element_to_search) if element_to_search is not None else oracle
+    if name or discard_lower:
+        pass
+""",
     "STALE-PRECEDENCE": """
 def compress(deff, arg_bits):
     d_exp = {}
@@ -552,6 +615,70 @@ def compile_thing(self, qc, expr, dest=None):
 }
 
 
+def class_mutable(cls_node: ast.ClassDef) -> List[Tuple[ast.AST, str]]:
+    """a list/dict/set created in the class body is ONE object shared by every instance; a method that changes it in
+    place through `self.<attr>` (and no method gives the instance its own: `self.<attr> = ...`) leaks state from one
+    object into all others"""
+    attrs = {}
+    for s_ in cls_node.body:
+        tg = v = None
+        if isinstance(s_, ast.Assign) and len(s_.targets) == 1 and isinstance(s_.targets[0], ast.Name):
+            tg, v = s_.targets[0].id, s_.value
+        elif isinstance(s_, ast.AnnAssign) and isinstance(s_.target, ast.Name) and s_.value is not None:
+            tg, v = s_.target.id, s_.value
+        if tg and (isinstance(v, (ast.List, ast.Dict, ast.Set, ast.ListComp, ast.DictComp, ast.SetComp)) or (isinstance(v, ast.Call) and isinstance(v.func, ast.Name) and v.func.id in ("list", "dict", "set", "defaultdict", "OrderedDict", "deque"))):
+            attrs[tg] = s_
+    if not attrs:
+        return []
+    rebound = set()
+    for n in ast.walk(cls_node):
+        if isinstance(n, (ast.Assign, ast.AnnAssign)):
+            for t in (n.targets if isinstance(n, ast.Assign) else [n.target]):
+                if isinstance(t, ast.Attribute) and isinstance(t.value, ast.Name) and t.value.id == "self" and t.attr in attrs and getattr(n, "value", None) is not None:
+                    rebound.add(t.attr)
+    res = []
+    for n in ast.walk(cls_node):
+        hit = None
+        if isinstance(n, ast.Call) and isinstance(n.func, ast.Attribute) and n.func.attr in _INPLACE and isinstance(n.func.value, ast.Attribute) and isinstance(n.func.value.value, ast.Name) and n.func.value.value.id in ("self", "cls") and n.func.value.attr in attrs:
+            hit = (n, n.func.value.attr)
+        elif isinstance(n, (ast.Assign, ast.AugAssign, ast.Delete)):
+            for t in (n.targets if isinstance(n, (ast.Assign, ast.Delete)) else [n.target]):
+                if isinstance(t, ast.Subscript) and isinstance(t.value, ast.Attribute) and isinstance(t.value.value, ast.Name) and t.value.value.id in ("self", "cls") and t.value.attr in attrs:
+                    hit = (n, t.value.attr)
+                if isinstance(n, ast.AugAssign) and isinstance(t, ast.Attribute) and isinstance(t.value, ast.Name) and t.value.id == "self" and t.attr in attrs:
+                    hit = (n, t.attr)
+        if hit and hit[1] not in rebound:
+            res.append((hit[0], f"`{norm(hit[0])[:70]}` changes `{hit[1]}`, which is created once in the body of class {cls_node.name} (`{norm(attrs[hit[1]])[:50]}`) and never re-created per instance: every {cls_node.name} object shares it, so what one object stores is seen by all others"))
+            attrs.pop(hit[1])
+            if not attrs:
+                break
+    return res
+
+
+_CLASS_POS = """
+class QlassF:
+    _models: Dict[str, Any] = {}
+
+    def to_bqm(self, fmt):
+        if fmt not in self._models:
+            self._models[fmt] = build(self, fmt)
+        return self._models[fmt]
+"""
+_CLASS_NEG = """
+class QlassF:
+    _models: Dict[str, Any] = {}
+    KINDS = ["a", "b"]
+
+    def __init__(self):
+        self._models = {}
+
+    def to_bqm(self, fmt):
+        if fmt not in self._models:
+            self._models[fmt] = build(self, fmt)
+        return [k for k in self.KINDS]
+"""
+
+
 def check(ctx, pid: Optional[str] = None, prefixes: Optional[Tuple[str, ...]] = None):
     """one obligation per rule for the scan (with the number of functions scanned), a violation per instance"""
     pid = pid or ctx.prop
@@ -603,6 +730,25 @@ def check(ctx, pid: Optional[str] = None, prefixes: Optional[Tuple[str, ...]] = 
                 ctx.fail(rule, fi, role, what, node)
         if not hits:
             ctx.ok(rule, None, role, f"{len(funcs)} functions of the anchored modules scanned, 0 instances; positive example fires, negative example silent", construct="/".join(p.rstrip(".") for p in prefixes))
+    _check_classes(ctx, funcs)
+
+
+def _check_classes(ctx, funcs):
+    rule, role = "CLASS-MUTABLE", "a container created in a class body is not changed through an instance"
+    if len(class_mutable(ast.parse(_CLASS_POS).body[0])) != 1 or class_mutable(ast.parse(_CLASS_NEG).body[0]):
+        raise AnchorError(f"lints.{rule}", "the rule no longer separates its own positive and negative example")
+    seen, hits = set(), 0
+    for fi in funcs:
+        c = fi.cls
+        if c is None or c.qualname in seen:
+            continue
+        seen.add(c.qualname)
+        for node, what in class_mutable(c.node):
+            hits += 1
+            owner = next((m for m in c.methods.values() if any(x is node for x in ast.walk(m.node))), None)
+            ctx.fail(rule, owner, role, what, node, construct=None if owner is not None else c.qualname)
+    if not hits:
+        ctx.ok(rule, None, role, f"{len(seen)} classes of the anchored modules scanned, 0 instances; positive example fires, negative example silent", construct="classes")
 
 
 def _scan_own(fi: FuncInfo, rule_fn):
